@@ -256,11 +256,14 @@ func (sws *sessionWantSender) onChange(changes []change) {
 			cancels = append(cancels, c)
 		}
 
-		// Consolidate updates and changes to availability
-		if chng.update.from != "" {
-			// If the update includes blocks or haves, treat it as signaling that
-			// the peer is available
-			if len(chng.update.ks) > 0 || len(chng.update.haves) > 0 {
+		// Consolidate updates and changes to availability. Blocks announced
+		// locally (NotifyNewBlocks) arrive with an empty sender: they must
+		// still remove the want, otherwise it keeps being sent to peers
+		// after the session's interest (and the CANCEL) are gone.
+		if upd := chng.update; len(upd.ks) > 0 || len(upd.haves) > 0 || len(upd.dontHaves) > 0 {
+			// If the update includes blocks or haves from a peer, treat it as
+			// signaling that the peer is available
+			if upd.from != "" && (len(upd.ks) > 0 || len(upd.haves) > 0) {
 				p := chng.update.from
 				log.Debugf("change: availability (update includes blocks/haves): %s -> true", p)
 				availability[p] = true
@@ -369,7 +372,7 @@ func (sws *sessionWantSender) processUpdates(updates []update) []cid.Cid {
 
 			// Remove the want
 			removed := sws.removeWant(c)
-			if removed != nil {
+			if removed != nil && upd.from != "" {
 				// Inform the peer tracker that this peer was the first to send
 				// us the block
 				sws.peerRspTrkr.receivedBlockFrom(upd.from)
